@@ -120,7 +120,15 @@ def run(ctx):
         ctx.cov["behaviours_closing_the_listener_with_live_associations"] += sum(1 for x in sums if x.get("live_at_close", 0) > 0)
     # a client datagram in the window between the deadline firing and natmap.del
     U.window(ctx, U.PROPS["C14"] + ["MetricsLanguage", "PktTPerReply", "OnePerClient", "SrcPrivate"])
-    server_wiring(ctx)
+    # the wiring part measures through a real server under whatever load the machine has: a run that could not measure is
+    # repeated once on fresh ports; if it still cannot, the part is recorded as skipped (the other parts decide)
+    for attempt in (1, 2):
+        try:
+            server_wiring(ctx, attempt)
+            break
+        except vlib.Inconclusive as e:
+            if attempt == 2:
+                ctx.cov["skipped"].append("server wiring of -udptimeout: could not measure twice: " + str(e)[:300])
     if rows is None and not rb:
         raise vlib.Inconclusive("no driver covered C14")
     if not q:
@@ -132,7 +140,7 @@ def run(ctx):
                         ASSUME)
 
 
-def server_wiring(ctx):
+def server_wiring(ctx, attempt=1):
     """5. the promise as the server wires it: configurations of both formats (catalogue of Reload.tla) are loaded into a real
     OutlineServer started with -udptimeout = 150 ms; every association opened by an authenticated probe datagram is followed
     until the server reports it removed; ReloadTrace judges the life time (Reload!NatLifeOK)."""
@@ -157,7 +165,7 @@ def server_wiring(ctx):
     if not legacy or not svc:
         raise vlib.Inconclusive("the catalogue produced no legacy-format or no services-format configuration with UDP listeners")
     sc = [{"id": i + 1, "replay": 0, "mode": "natlife", "steps": [{"a": "Load", "cfg": c, "frn": [], "ok": True}]} for i, c in enumerate(chosen)]
-    tf = rl_common.run_harness(ctx, sc, "c14-wiring", timeout=1500)
+    tf = rl_common.run_harness(ctx, sc, "c14-wiring%d" % attempt, timeout=1500)
     res = rl_common.judge(ctx, tf, "server wiring of -udptimeout, both configuration formats", "C14",
                           {"nat-lifetime": "an association of a running service lived shorter than the configured -udptimeout or was not "
                                            "reported removed within 3 s after it"}, only={"nat-lifetime"})
